@@ -670,11 +670,11 @@ func exploreNet(c *vx.Ctx, heights int, maxDev int, seeds [][]string) {
 		ok := runJobs(c, js, st, []string{"C03"}, each)
 		c.Extra["scripted_adversary_missing_proposal"] = map[string]any{"executions": len(js), "completed": ok}
 	}
-	// Scripted adversary "forged-relay" (see net.go), alone and with every single deviation on top of it.
-	{
+	// Scripted adversaries "forged-relay" and "forged-relay-pk" (see net.go), alone and with every single deviation on top.
+	for _, name := range []string{"forged-relay", "forged-relay-pk"} {
 		advArgs := func() map[string]string {
 			m := args()
-			m["adversary"] = "forged-relay"
+			m["adversary"] = name
 			return m
 		}
 		js := []vx.Job{{Exec: "net", Args: advArgs()}}
@@ -684,7 +684,7 @@ func exploreNet(c *vx.Ctx, heights int, maxDev int, seeds [][]string) {
 			}
 		}
 		ok := runJobs(c, js, st, []string{"C03"}, each)
-		c.Extra["scripted_adversary_forged_relay"] = map[string]any{"executions": len(js), "completed": ok}
+		c.Extra["scripted_adversary_"+strings.ReplaceAll(name, "-", "_")] = map[string]any{"executions": len(js), "completed": ok}
 	}
 	if completed == 1 && maxDev >= 2 {
 		core := netOps("core")
